@@ -12,7 +12,17 @@ Oracles (all evaluated on what the real code did):
   (4) CLI: `grog graph -o json` agrees across formats; corrupt files give a non-zero exit and no
       Go panic trace.
 Partial by nature: encoding/json, yaml.v3 and starlark are third-party decoders; they are
-covered by (1) and (3) only, not by any theorem."""
+covered by (1) and (3) only, not by any theorem.
+
+Known-finding classes, each evaluated on the failing input: makefile-bare-annotation-panic
+(Loader.mk_guard = false on the file's lines), makefile-drops-fields (the Makefile result equals the
+BUILD.json result of the package without the four fields), starlark-unbounded-execution (confirmed
+hang of a BUILD.star containing an iteration construct), null-list-element-panic (the real decoder
+delivers a nil entry in Targets / Aliases).  Where Loader.v mirrors a recorded defect (the panic,
+the dropped fields) an implementation that satisfies the property instead is accepted and noted.
+The extracted model is quadratic in the line length (List.rev), so the bufio token-too-long
+boundary is compared with a token limit of 300 on both sides (bufio.Scanner.Buffer in the harness,
+[maxlen] in Loader.split_lines); real-size long lines go through the robustness part only."""
 import hashlib, json, os, re, shutil, subprocess, time
 from concurrent.futures import ThreadPoolExecutor
 import vlib
